@@ -159,8 +159,13 @@ func traceHash(res *CaseResult) string {
 		s += scheduleSignature(r)
 		for _, a := range r.Results {
 			s += fmt.Sprintf("#%s#%v", errText(a.StreamErr), len(a.ErrorResults))
-			for _, e := range a.ErrorResults {
-				s += errText(e)
+			if a.StreamErr == nil {
+				// after a failed Stream the value of Error() is unconstrained and, because
+				// of the driver's Close-vs-reader race (known finding), may be either the
+				// cancellation or a transport error: not part of the canonical trace
+				for _, e := range a.ErrorResults {
+					s += errText(e)
+				}
 			}
 			if a.Master != nil {
 				for _, d := range a.Master.Dumps {
